@@ -3344,6 +3344,9 @@ def gen_all(repo):
             elif spec.get("ckks_mode"):       # phase 4k: integer side of the CKKS encoder (tools/rs2lean_ckks.py)
                 import rs2lean_ckks
                 res[name] = rs2lean_ckks.generate(sys.modules[__name__], tr, spec)
+            elif spec.get("gal_mode"):          # round 7 (worker V): plan skeletons of the rotation layer (tools/rs2lean_gal.py)
+                import rs2lean_gal
+                res[name] = rs2lean_gal.generate(sys.modules[__name__], tr, spec)
             else: res[name] = ladder_file(tr, spec) if spec.get("ladder") else tr.run_file(spec)
         except (Unsupported, SystemExit) as ex: res[name] = GenFailed(str(ex))
         except Exception as ex: res[name] = GenFailed("translator error: %s: %s" % (type(ex).__name__, ex))
@@ -3914,6 +3917,9 @@ FILES += [("ContextFns.lean", _rs2lean_ctx.SPEC)]
 import rs2lean_conc
 FILES += rs2lean_conc.files(sys.modules[__name__])
 
+
+import rs2lean_gal as _rs2lean_gal          # round 7 (worker V): Gen/GaloisPlanFns.lean (tables in tools/rs2lean_gal.py)
+FILES += [("GaloisPlanFns.lean", _rs2lean_gal.SPEC)]
 
 if __name__ == "__main__":
     res = gen_all(sys.argv[1])
